@@ -28,9 +28,34 @@ def line_lens(text):
     return lens
 
 
+def end_position(text):
+    """the position immediately after the last character, by the position machine of Text.tla:
+    position of the last character (a LF right after a CR shares the CR's position) plus one column"""
+    row, col, prevcr = 1, 1, False
+    last = (1, 0)
+    for c in text:
+        last = (row, col)
+        if c == "\r":
+            nxt = (row + 1, 1, True)
+        elif c == "\n":
+            if prevcr:
+                # the LF of a CR LF sits where the CR sat
+                last = lastcr
+                nxt = (row, col, False)
+            else:
+                nxt = (row + 1, 1, False)
+        else:
+            nxt = (row, col + 1, False)
+        if c == "\r":
+            lastcr = (row, col)
+        row, col, prevcr = nxt
+    return last[0], last[1] + 1
+
+
 def record(rid, text, resp, upto="run"):
     """upto = 'lint': only parsing + checking matter (C07)"""
-    r = {"id": rid, "stage": "run", "kind": "ok", "code": 0, "row": 1, "col": 1, "lens": line_lens(text)}
+    er, ec = end_position(text)
+    r = {"id": rid, "stage": "run", "kind": "ok", "code": 0, "row": 1, "col": 1, "lens": line_lens(text), "endrow": er, "endcol": ec}
     if resp is None:
         r.update(stage="run", kind="abort")
         return r
